@@ -282,6 +282,38 @@ type aggregate struct {
 	infra       []string
 	raceReports int
 	skipped     int
+	stalls      int
+}
+
+var (
+	stallMu   sync.Mutex
+	stallSeen = map[string]bool{}
+)
+
+// noteStall records a watchdog stall of one run; it returns false when the
+// same run has stalled before. The worker's full stderr is kept for diagnosis.
+func noteStall(cur *Result, stderr string) bool {
+	key := fmt.Sprintf("%s-%d-%d", cur.Scen, cur.Seed, cur.Case)
+	stallMu.Lock()
+	defer stallMu.Unlock()
+	if stallSeen[key] {
+		return false
+	}
+	stallSeen[key] = true
+	dir := filepath.Join(root, "replays")
+	os.MkdirAll(dir, 0o755)
+	os.WriteFile(filepath.Join(dir, "stall-"+key+".log"), []byte(stderr), 0o644)
+	fmt.Fprintf(os.Stderr, "note: worker stalled on %s seed %d case %d (%s); the run is repeated once\n", cur.Scen, cur.Seed, cur.Case, firstLine(stallLine(stderr)))
+	return true
+}
+
+func stallLine(stderr string) string {
+	for _, l := range strings.Split(stderr, "\n") {
+		if strings.HasPrefix(l, "WATCHDOG:") {
+			return l
+		}
+	}
+	return "no watchdog line"
 }
 
 func newAgg() *aggregate {
@@ -800,6 +832,17 @@ func check(prop, tier string) int {
 							// the seed is the replay.
 							note(r)
 							done++
+						} else if wo.exit == 4 && noteStall(cur, wo.stderr) {
+							// The worker's watchdog saw no progress for a minute of
+							// wall time without a provable lock hang. Scenarios with
+							// real libp2p hosts make real system calls (netlink route
+							// dumps); one stall per run is tolerated: the run is
+							// repeated once in a fresh process (requeued below, not
+							// counted as done) and the stall is reported in the
+							// evidence. A second stall of the same run is an error.
+							agg.mu.Lock()
+							agg.stalls++
+							agg.mu.Unlock()
 						} else if wo.exit != 3 {
 							agg.mu.Lock()
 							agg.infra = append(agg.infra, fmt.Sprintf("worker exit %d on %s seed %d case %d: %s", wo.exit, cur.Scen, cur.Seed, cur.Case, lastLines(wo.stderr, 15)))
@@ -1048,6 +1091,7 @@ func writeEvidence(pl plan, prop, tier string, seed uint64, g *aggregate, wall f
 		"toolchain":                         gov,
 		"workers":                           workers,
 		"runs_skipped_after_stop_or_budget": g.skipped,
+		"worker_stalls_repeated_once":       g.stalls,
 	}
 	ev := map[string]any{
 		"property_id": prop,
